@@ -15,7 +15,6 @@ instance (p : Phase) (c : Bool) (q : List Cmd) : Closed0 (Ctl p c q) where
   burnId := by intro g h; simpa [burnId, Ctl] using h
   announceConnect := by intro sid c g h; unfold announceConnect withLive; split <;> (try split) <;> simpa [Ctl, emit] using h
   dataCb := by intro sid g h; unfold dataCb withLive; split <;> (try split) <;> simpa [Ctl, emit] using h
-  setTls := by intro sid t g h; unfold setTls withLive; split <;> (try split) <;> simpa [Ctl] using h
   setWq := by intro sid n g h; unfold setWq withLive; split <;> (try split) <;> simpa [Ctl] using h
   viaIndex := by
     intro sid k g h; unfold viaIndex withLive; split <;> (try split) <;> (try simp only []) <;> (try split) <;> simpa [Ctl] using h
@@ -33,7 +32,7 @@ instance (p : Phase) (c : Bool) (q : List Cmd) : Closed (Ctl p c q) where
 /-! ## `cur` is cleared by every connect handler -/
 @[simp] theorem failConnect_cur (site : Site) (g : G) : (failConnect site g).cur = none := by
   unfold failConnect; split <;> simp_all [emit]
-@[simp] theorem insertCur_cur (t : Tls) (k : Option Key) (o : Lid) (g : G) : (insertCur t k o g).cur = none := by
+@[simp] theorem insertCur_cur (t : Bool) (k : Option Key) (o : Lid) (g : G) : (insertCur t k o g).cur = none := by
   unfold insertCur; split <;> simp_all
 
 def CurIs (c : Option Sid) (g : G) : Prop := g.cur = c
@@ -49,7 +48,7 @@ theorem Tcp.connectCheck_cur (sid : Sid) (a b c : Site) (as : List A) (g : G) :
     (Tcp.connectCheck sid a b c as g).2.1.cur = g.cur := by
   fun_cases Tcp.connectCheck sid a b c as g <;> simp [closeNow_cur, announceConnect_cur]
 
-theorem Tcp.doConnect_cur (tls named : Bool) (as : List A) (g : G) : (Tcp.doConnect tls named as g).1.cur = none := by
+theorem Tcp.doConnect_cur (tls : TlsReq) (named : Bool) (as : List A) (g : G) : (Tcp.doConnect tls named as g).1.cur = none := by
   have hr : (Tcp.resolveStep named as g).1 = false → (Tcp.resolveStep named as g).2.2.1 = g := by
     fun_cases Tcp.resolveStep named as g <;> simp
   have hr1 : (Tcp.resolveStep named as g).1 = true → (Tcp.resolveStep named as g).2.2.1.cur = none := by
@@ -67,12 +66,17 @@ theorem Tcp.doConnect_cur (tls named : Bool) (as : List A) (g : G) : (Tcp.doConn
     | (dsimp only; rw [Tcp.connectCheck_cur]; exact insertCur_cur _ _ _ _)
     | (dsimp only; assumption)
 
+theorem connectNow_cur (k : Option Key) (o : Lid) (c : Bool) (g : G) : (connectNow k o c g).cur = none := by
+  unfold connectNow
+  split
+  · simpa using ‹g.cur = none›
+  · rw [announceConnect_cur]; exact insertCur_cur _ _ _ _
+
 theorem Udp.connectDo_cur (as : List A) (g : G) : (Udp.connectDo as g).1.cur = none := by
-  fun_cases Udp.connectDo as g <;> simp_all [announceConnect_cur]
-  all_goals exact insertCur_cur _ _ _ _
+  fun_cases Udp.connectDo as g <;> simp [connectNow_cur]
 
 theorem Udp.viaDo_cur (lid : Lid) (k : Key) (as : List A) (g : G) : (Udp.viaDo lid k as g).1.cur = none := by
-  fun_cases Udp.viaDo lid k as g <;> simp_all [announceConnect_cur, viaIndex_cur]
+  fun_cases Udp.viaDo lid k as g <;> simp_all [connectNow_cur, viaIndex_cur]
 
 
 /-! ## the steps shared by both engines -/
@@ -88,7 +92,8 @@ theorem liveCount_succ {g g' : G} (hn : g'.nextId = g.nextId + 1) (ht : g'.table
 /-- connect() / connectViaListener(): a fresh id is allocated; it becomes pending iff the queue accepted the command -/
 theorem Inv.alloc_step {g g' : G} (h : Inv g) (ok : Bool) (hn : g'.nextId = g.nextId + 1) (ht : g'.table = g.table)
     (htr : g'.tr = g.tr ++ [.ret g.nextId ok]) (hp : pend g' = pend g ++ (if ok then [g.nextId] else []))
-    (hc : g'.current = g.current) (he : g'.envBad = g.envBad) (hi : g'.index = g.index) : Inv g' := by
+    (hc : g'.current = g.current) (he : g'.envBad = g.envBad) (hi : g'.index = g.index)
+    (hd : g'.dupAnn = g.dupAnn := by rfl) : Inv g' := by
   have htn : g.table g.nextId = none := h.fresh_tbl
   have hnp : g.nextId ∉ pend g := fun hm => Nat.lt_irrefl _ (h.pend_lt _ hm)
   have hncl : g.nextId ∉ closesOf g.tr := fun hm => Nat.lt_irrefl _ (h.cl_lt _ hm)
@@ -143,10 +148,14 @@ theorem Inv.alloc_step {g g' : G} (h : Inv g) (ok : Bool) (hn : g'.nextId = g.ne
     · exact hx ▸ Nat.lt_succ_self _
   · rw [hal', List.pairwise_append]
     exact ⟨h.alloc_sorted, by simp, by intro a ha b hb; simp at hb; subst hb; exact h.alloc_lt a ha⟩
-  · intro he'; rw [he] at he'; rw [htr, ordered_snoc]; exact ⟨h.ordered he', trivial⟩
+  · refine h.ord.ext (some (.ret g.nextId ok)) (by simp [htr]) ?_ (fun hx => ⟨by rw [hd] at hx; exact hx, by intro x e; cases e; trivial⟩)
+      (fun hx => ⟨by rw [he] at hx; exact hx, by intro x e; cases e; trivial⟩) ?_
+    · intro x e; cases e; intro y hy; cases hy
+    · refine h.ord.cann_keep (some (.ret g.nextId ok)) (by simp [htr]) (by intro y e; cases e) ?_
+      intro x s' hx; rw [ht] at hx; exact Or.inl ⟨s', hx, rfl⟩
   · rw [hi, ht]; exact h.idx_live
 
-theorem inv_apiConnect (tls named : Bool) {g : G} (h : Inv g) : Inv (apiConnect tls named g) := by
+theorem inv_apiConnect (tls : TlsReq) (named : Bool) {g : G} (h : Inv g) : Inv (apiConnect tls named g) := by
   unfold apiConnect
   dsimp only
   split
@@ -249,7 +258,8 @@ theorem drainAll_closed (l : List Sid) (g : G) (x : Sid) (hx : x ∈ l) (s : Ses
 /-- `_sessions.clear()` etc. after every entry has been closed -/
 theorem Inv.clear_step {g g' : G} (h : Inv g) (hall : ∀ sid s, g.table sid = some s → s.closed = true)
     (ht : ∀ x, g'.table x = none) (hi : ∀ k, g'.index k = none) (hn : g'.nextId = g.nextId) (hp : pend g' = pend g)
-    (htr : g'.tr = g.tr) (hc : g'.current = g.current) (he : g'.envBad = g.envBad) : Inv g' := by
+    (htr : g'.tr = g.tr) (hc : g'.current = g.current) (he : g'.envBad = g.envBad)
+    (hd : g'.dupAnn = g.dupAnn := by rfl) : Inv g' := by
   have hz : liveCount g = 0 := by
     unfold liveCount
     rw [List.countP_eq_zero]
@@ -286,7 +296,8 @@ theorem Inv.clear_step {g g' : G} (h : Inv g) (hall : ∀ sid s, g.table sid = s
   · rw [hc, hz', h.gauge, hz]
   · rw [htr, hn]; exact h.alloc_lt
   · rw [htr]; exact h.alloc_sorted
-  · rw [htr, he]; exact h.ordered
+  · exact h.ord.ext none (by simp [htr]) (by simp) (fun hx => ⟨by rw [hd] at hx; exact hx, by simp⟩)
+      (fun hx => ⟨by rw [he] at hx; exact hx, by simp⟩) (by intro x s hx; rw [ht x] at hx; cases hx)
   · intro k x hx; rw [hi k] at hx; cases hx
 
 theorem popCmd_cur_conn {g : G} (hc : g.cur = none) :
@@ -331,7 +342,6 @@ instance : Closed0 (CurIs none) where
   burnId := by intro g h; simpa [burnId, CurIs] using h
   announceConnect := by intro sid c g h; simpa [CurIs, announceConnect_cur] using h
   dataCb := by intro sid g h; unfold dataCb withLive; split <;> (try split) <;> simpa [CurIs, emit] using h
-  setTls := by intro sid t g h; unfold setTls withLive; split <;> (try split) <;> simpa [CurIs] using h
   setWq := by intro sid n g h; unfold setWq withLive; split <;> (try split) <;> simpa [CurIs] using h
   viaIndex := by intro sid k g h; simpa [CurIs, viaIndex_cur] using h
   stale := by intro g h; simpa [CurIs] using h
@@ -622,7 +632,7 @@ theorem Tcp.sinv_step (g : G) (i : In) (h : SInv g) : SInv (Tcp.step g i) := by
       · exact h
     · exact h
 
-theorem Udp.listener_pres {P : G → Prop} [Closed0 P] (lid : Lid) (a b : Bool) (as : List A) (g : G) (hP : P g) :
+theorem Udp.listener_pres {P : G → Prop} [ClosedU0 P] (lid : Lid) (a b : Bool) (as : List A) (g : G) (hP : P g) :
     P (match (if a = true then Udp.readFromListener lid as g else (g, as)) with
        | (g, as) => if b = true then (Udp.flushListener lid as g).1 else g) := by
   split
@@ -672,7 +682,8 @@ def init (cfg : Cfg) : G := { cfg := cfg }
 
 theorem sinv_init (cfg : Cfg) : SInv (init cfg) := by
   refine ⟨?_, rfl, ⟨by simp [init], by simp [init]⟩⟩
-  constructor <;> simp [init, pend, liveCount, live, Ordered, OrderedFrom, closesOf, annOf, retOf, allocsOf]
+  constructor <;> (try simp [init, pend, liveCount, live, closesOf, annOf, retOf, allocsOf])
+  exact ⟨trivial, fun _ => trivial, fun _ => trivial, by intro sid s hs; simp [init] at hs⟩
 
 theorem run_foldl (stepf : G → In → G) (hs : ∀ g i, SInv g → SInv (stepf g i)) (g : G) (h : SInv g) (is : List In) :
     SInv (run stepf g is) := by
